@@ -31,7 +31,7 @@ NAMES = ["LICENSE", "LICENSE-MIT", "LICENSE.txt", "LICENSEX", "LICENCE", "LICENC
          "license", "copying.txt", ".hidden", "CAL-1.0.txt", ".hgtags"]
 DIR_NAMES = [".git", ".hg", ".sl", "LICENSES", ".reuse", "subprojects", "LICENSE", "x.license", "plaindir"]
 LOCS = ["", "d/", "d/e/", "LICENSES/", ".reuse/", ".git/", ".hg/", "subprojects/p/", "subprojects/"]
-KINDS = ["file", "empty", "symlink-file", "symlink-dir", "dir"]
+KINDS = ["file", "empty", "symlink-file", "symlink-dir", "dir", "fifo"]
 RULES = ["*.log", "build/", "!keep.log", "/top.txt", "d/*.tmp", "d/"]
 
 
@@ -89,6 +89,8 @@ def names_recipe(loc, kind, names):
             rec[p] = {"symlink": "../" * depth + "target.txt"}
         elif kind == "symlink-dir":
             rec[p] = {"symlink": "../" * depth + "targetdir"}
+        elif kind == "fifo":
+            rec[p] = {"fifo": True}
         else:
             rec[p + "/inner.txt"] = f"inside directory {n}\n"
     return rec
@@ -105,6 +107,8 @@ def tree_kinds(root):
                 out[rel] = "symlink"
             elif os.path.isdir(p):
                 out[rel] = "dir"
+            elif not os.path.isfile(p):
+                out[rel] = "special"
             else:
                 out[rel] = "empty" if os.path.getsize(p) == 0 else "file"
     return out
@@ -139,7 +143,7 @@ def consumers(root, extra=(), cwd=None, do_annotate=True):
         raise HarnessError(f"spdx failed: {spdx.brief()}")
     out["spdx"] = {l[len("FileName: ./"):] for l in spdx.stdout.split("\n") if l.startswith("FileName: ./")}
     kinds = tree_kinds(root)
-    args = [str(root / p) for p, k in kinds.items() if k in ("file", "empty") or (k == "symlink" and os.path.exists(root / p))]
+    args = [str(root / p) for p, k in kinds.items() if k in ("file", "empty", "special") or (k == "symlink" and os.path.exists(root / p))]
     lf = run_cli(base + ["lint-file", *args], cwd=cwd)
     if lf.exc or lf.exit_code not in (0, 1):
         raise HarnessError(f"lint-file failed: {lf.brief()}")
@@ -224,7 +228,7 @@ def ev_names(c) -> R:
     got = consumers(root)
     label = f"names at {c['loc'] or './'} as {c['kind']}" + (f" ({c['names'][0]})" if c["names"] else "")
     compare(r, label, "names", cov, unspec, got)
-    if c["names"] is None:
+    if c["names"] is None and c["kind"] != "fifo":
         root = fresh_dir("c03")
         materialise(root, names_recipe(c["loc"], c["kind"], c["names"]))
         for d, (ex, want, open_) in annotate_subdirs(root, cov, unspec).items():
